@@ -103,7 +103,8 @@ def c14_cases(tier, rng):
                                     utf8=utf8 and rng.random() < 0.5, body=rng.choice([b"", b"7BIT", b"8BITMIME", b"BINARYMIME"])))
             typ = rng.choice([b"RFC822", b"UTF-8"]) if ascii_only else b"UTF-8"
             c.rcpt(b"r@x.org", dict(orcpttype=typ, orcpt=s, notify=rng.choice([[], [b"NEVER"], [b"SUCCESS", b"FAILURE"], [b"DELAY", b"SUCCESS", b"FAILURE"]]),
-                                    rrvs=rng.choice([None, 0, 1577934245, 4102444799])))
+                                    rrvs=rng.choice([None, 0, 1577934245, 4102444799]),
+                                    rrvszone=rng.choice([0, 0, 7200, -18000, 19800, -34200, 50400])))
             cases.append(c.case())
     # every option subset
     fields_m = [("size", 12345), ("utf8", 1), ("ret", b"HDRS"), ("envid", b"id+1=x y"), ("auth", b"u@d"), ("body", b"8BITMIME")]
